@@ -242,6 +242,34 @@ def run(ck):
                 oracle((ua ** 2).dimensionality == ua.dimensionality ** 2, "dim-hom", "dim(a**2) != dim(a)**2", rp)
             ck.count("unit/quantity layer")
 
+    # ---------------------------------------------------------------- equality at the Unit layer = equality of exponents
+    # (different expressions of the SAME physical unit — hertz and 1/second, newton and kg·m/s², radian and nothing —
+    # are different unit expressions: they must not compare equal, and equal units must hash alike)
+    directed = [({"hertz": 1}, {"second": -1}), ({"newton": 1}, {"kilogram": 1, "meter": 1, "second": -2}), ({"radian": 1}, {}),
+                ({"becquerel": 1}, {"hertz": 1}), ({"joule": 1}, {"newton": 1, "meter": 1}), ({"watt": 1}, {"joule": 1, "second": -1}),
+                ({"meter": 1, "radian": 1}, {"meter": 1}), ({"pascal": 1, "meter": 2}, {"newton": 1}), ({"liter": 1}, {"decimeter": 3}),
+                ({"count": 1}, {}), ({"meter": 1}, {"meter": 1}), ({"meter": 1, "second": -1}, {"second": -1, "meter": 1}),
+                ({"steradian": 1}, {"radian": 2}), ({"gray": 1}, {"sievert": 1}), ({"meter": 1}, {"kilometer": 1})]
+    for nit in (float, F):
+        ureg = pint.UnitRegistry(non_int_type=nit, cache_folder=None)
+        im = Impl(nit)
+        rnd_pairs = []
+        for _ in range(400 if thorough else 120):
+            da = {n: F(rng.choice([-2, -1, 1, 2, 3])) for n in rng.sample(["meter", "second", "gram", "kelvin", "radian", "inch", "hertz", "newton"], rng.randint(0, 3))}
+            db = dict(da) if rng.random() < 0.3 else {n: F(rng.choice([-2, -1, 1, 2, 3])) for n in rng.sample(["meter", "second", "gram", "kelvin", "radian", "inch", "hertz", "newton"], rng.randint(0, 3))}
+            rnd_pairs.append((da, db))
+        for dx, dy in [(a, b) for a, b in directed] + [(b, a) for a, b in directed] + rnd_pairs:
+            ux, uy = ureg.Unit(im.mk({k: F(v) for k, v in dx.items()})), ureg.Unit(im.mk({k: F(v) for k, v in dy.items()}))
+            if rng.random() < 0.5:
+                hash(ux), hash(uy), ux.dimensionality
+            same = fd(ux._units) == fd(uy._units)
+            rq = {"a": {k: str(v) for k, v in dx.items()}, "b": {k: str(v) for k, v in dy.items()}, "layer": "Unit", "non_int_type": nit.__name__}
+            oracle((ux == uy) == same and (ux != uy) == (not same), "unit-eq", f"Unit {dict(dx)} == Unit {dict(dy)} is {ux == uy}; same exponents: {same}", rq)
+            oracle((not (ux == uy)) or hash(ux) == hash(uy), "unit-eq-hash", f"Unit {dict(dx)} == Unit {dict(dy)} but their hashes differ", rq)
+            oracle(len({ux, uy}) == (1 if same else 2), "unit-set", f"a set of Unit {dict(dx)} and Unit {dict(dy)} has {len({ux, uy})} members; same exponents: {same}", rq)
+            ck.case(key=("unit-eq", nit.__name__, str(sorted(dx.items())), str(sorted(dy.items()))))
+        ck.count("unit equality")
+
     # ---------------------------------------------------------------- op sequences with cached hashes
     im = Impl(F)
     for _ in range(1500 if thorough else 300):
